@@ -117,6 +117,13 @@ func (c *fnCtx) assignTo(ind int, lhs ast.Expr, val string, define, internal boo
 			return
 		}
 		obj := c.info.Uses[l]
+		if target, ok := c.alias[obj]; ok {
+			if !internal {
+				c.fail(lhs, "assignment to the alias %s itself", l.Name)
+			}
+			c.assignTo(ind, target, val, false, true)
+			return
+		}
 		if c.ptrs[obj] && !internal {
 			c.fail(lhs, "assignment to the pointer parameter %s itself", l.Name)
 		}
@@ -134,6 +141,10 @@ func (c *fnCtx) assignTo(ind int, lhs ast.Expr, val string, define, internal boo
 		if id, ok := unparen(l.X).(*ast.Ident); ok {
 			if obj := c.info.Uses[id]; obj != nil && c.ptrs[obj] {
 				c.emit(ind, fmt.Sprintf("%s := %s", c.names[obj], val))
+				return
+			}
+			if target, ok := c.alias[c.info.Uses[id]]; ok {
+				c.assignTo(ind, target, val, false, true)
 				return
 			}
 		}
@@ -158,8 +169,12 @@ func (c *fnCtx) assignTo(ind int, lhs ast.Expr, val string, define, internal boo
 	case *ast.IndexExpr:
 		bt := c.info.TypeOf(l.X)
 		if _, ok := bt.Underlying().(*types.Array); !ok {
-			// an element of a slice may be shared with other slices (aliasing): outside the subset
-			c.fail(lhs, "assignment to an element of a value of type %s (only arrays: slices may alias)", bt)
+			// an element of a slice may be shared with other slices. Allowed only for a slice that is a field (path) of
+			// the pointee of a pointer parameter and that this function never copies: the pointee is taken to OWN its
+			// slices (no other live slice shares their backing array) — stated in notes/go2lean.md, "Ownership".
+			if why := c.ownedSlice(l.X); why != "" {
+				c.fail(lhs, "assignment to an element of a value of type %s: %s", bt, why)
+			}
 		}
 		base := c.expr(l.X)
 		idx := c.expr(l.Index)
@@ -350,6 +365,13 @@ func (c *fnCtx) assign(ind int, s *ast.AssignStmt) {
 	}
 	define := s.Tok == token.DEFINE
 	if len(s.Lhs) == len(s.Rhs) {
+		if len(s.Lhs) == 1 && define {
+			if ue, ok := unparen(s.Rhs[0]).(*ast.UnaryExpr); ok && ue.Op == token.AND {
+				c.aliasInd = ind
+				c.defineAlias(s, s.Lhs[0], ue.X)
+				return
+			}
+		}
 		if len(s.Lhs) == 1 {
 			c.assignTo(ind, s.Lhs[0], c.rhsValue(ind, s.Rhs[0]), define, false)
 			return
@@ -567,7 +589,22 @@ func freeVars(info *types.Info, e ast.Node) map[types.Object]bool {
 	return res
 }
 
-func (c *fnCtx) loopBody(ind int, body *ast.BlockStmt) {
+func (c *fnCtx) loopBody(ind int, body *ast.BlockStmt, vars ...types.Object) {
+	if c.loopVars == nil {
+		c.loopVars = map[types.Object]bool{}
+	}
+	for _, v := range vars {
+		if v != nil {
+			c.loopVars[v] = true
+		}
+	}
+	c.loopBodies = append(c.loopBodies, body)
+	defer func() {
+		c.loopBodies = c.loopBodies[:len(c.loopBodies)-1]
+		for _, v := range vars {
+			delete(c.loopVars, v)
+		}
+	}()
 	c.loop++
 	sw := c.inSwitch
 	c.inSwitch = 0
@@ -587,9 +624,13 @@ func (c *fnCtx) rangeStmt(ind int, s *ast.RangeStmt) {
 		c.fail(s, "range over a value of type %s", xt)
 	}
 	asg := assignedRoots(c.info, s.Body)
-	for v := range freeVars(c.info, s.X) {
-		if asg[v] {
-			c.fail(s, "the loop body assigns to %s, which the range expression mentions", v.Name())
+	if s.Value != nil {
+		// `for _, v := range s` reads s[i] as the loop goes: the body must not write to s. (`for i := range s` only needs
+		// len(s), evaluated once before the loop in Go and here alike.)
+		for v := range freeVars(c.info, s.X) {
+			if asg[v] {
+				c.fail(s, "the loop body assigns to %s, whose elements the range statement reads", v.Name())
+			}
 		}
 	}
 	before := c.nparts
@@ -629,7 +670,11 @@ func (c *fnCtx) rangeStmt(ind int, s *ast.RangeStmt) {
 	default:
 		c.emit(ind, fmt.Sprintf("for _ in %s do", x))
 	}
-	c.loopBody(ind+1, s.Body)
+	var kobj types.Object
+	if kid, ok := s.Key.(*ast.Ident); ok && hasK {
+		kobj = c.info.Defs[kid]
+	}
+	c.loopBody(ind+1, s.Body, kobj)
 }
 
 // forStmt: `for i := a; i < b; i++ { … }` (and <=, >, >= with ++/--) where the body assigns neither i nor anything b mentions
@@ -719,5 +764,69 @@ func (c *fnCtx) forStmt(ind int, s *ast.ForStmt) {
 	default:
 		bad("direction of the step and comparison " + cond.Op.String() + " do not match")
 	}
-	c.loopBody(ind+1, s.Body)
+	c.loopBody(ind+1, s.Body, obj)
+}
+
+// ownedSlice: may elements of the slice-valued expression e be assigned? "" if so, else the reason.
+func (c *fnCtx) ownedSlice(e ast.Expr) string {
+	sel, ok := unparen(e).(*ast.SelectorExpr)
+	if !ok {
+		return "only a slice that is a field of the pointee of a pointer parameter may be written (slices may alias)"
+	}
+	root := rootIdent(sel)
+	if root == nil || !c.ptrs[c.info.Uses[root]] {
+		return "only a slice that is a field of the pointee of a pointer parameter may be written (slices may alias)"
+	}
+	return ""
+}
+
+// defineAlias: `p := &s[i]` — p stands for the element s[i] for the rest of the enclosing statement list. Sound when, as long
+// as p is in scope, neither i nor the slice/array s itself (as opposed to its elements) is assigned: checked over the whole
+// enclosing function body for the index variable and the slice path.
+func (c *fnCtx) defineAlias(s *ast.AssignStmt, lhs ast.Expr, target ast.Expr) {
+	id, ok := lhs.(*ast.Ident)
+	if !ok || id.Name == "_" {
+		c.fail(s, "address-of assigned to something that is not a new variable")
+	}
+	ix, ok := unparen(target).(*ast.IndexExpr)
+	if !ok {
+		c.fail(s, "address-of expression &%s (only &s[i] is in the subset)", exprText(c.u.l.fset, target))
+	}
+	switch c.info.TypeOf(ix.X).Underlying().(type) {
+	case *types.Slice:
+		if why := c.ownedSlice(ix.X); why != "" {
+			c.fail(s, "&%s: %s", exprText(c.u.l.fset, target), why)
+		}
+	case *types.Array:
+	default:
+		c.fail(s, "address of an element of a value of type %s", c.info.TypeOf(ix.X))
+	}
+	iid, ok := unparen(ix.Index).(*ast.Ident)
+	if !ok {
+		c.fail(s, "&s[e] with an index that is not a variable")
+	}
+	if c.loopVars == nil || !c.loopVars[c.info.Uses[iid]] {
+		c.fail(s, "&s[%s]: the index is not the variable of an enclosing range/for loop (it could change while the alias is live)", iid.Name)
+	}
+	// the slice itself must not be re-assigned inside the loop body that declares the alias
+	path := exprText(c.u.l.fset, unparen(ix.X))
+	for _, body := range c.loopBodies {
+		ast.Inspect(body, func(n ast.Node) bool {
+			if as, ok := n.(*ast.AssignStmt); ok {
+				for _, l := range as.Lhs {
+					if exprText(c.u.l.fset, unparen(l)) == path {
+						c.fail(as, "%s is assigned while the alias %s := &%s[%s] is live", path, id.Name, path, iid.Name)
+					}
+				}
+			}
+			return true
+		})
+	}
+	obj := c.info.Defs[id]
+	if c.alias == nil {
+		c.alias = map[types.Object]ast.Expr{}
+	}
+	c.alias[obj] = target
+	// Go evaluates &s[i] here: an index out of range panics at this point
+	c.emit(c.aliasInd, "let _ := "+c.expr(target))
 }
